@@ -23,6 +23,7 @@ def run_items(items):
     try:
         from miasmx.arch.ia32_arch import x86mnemo
         import miasmx.core.parse_ad
+        path_state = ["unchanged"] if list(sys.path) == keep_path else ["changed to %r" % (list(sys.path)[:3],)]
         sys.path[:] = keep_path        # ply/yacc.py may leave sys.path clobbered (finding recorded under C12)
         from miasmx.tools import emul_helper
         from miasmx.tools.modint import uint32
@@ -33,7 +34,9 @@ def run_items(items):
         for it in items:
             try:
                 t = it["t"]
-                if t == "simp":
+                if t == "syspath":
+                    out.append(path_state)
+                elif t == "simp":
                     out.append([str(expr_simp(build(it["s"])))])
                 elif t == "dis":
                     i = x86mnemo.dis(bytes.fromhex(it["b"]))
